@@ -34,6 +34,15 @@ def run(tier):
         c.add_tlc(r, "MC_CallBridge")
         if bad:
             c.violation("model:" + bad, "design-level invariant %s violated" % bad, {"tlc_tail": r.out[-3000:]})
+        # the statement tables every conversion is selected from (specs/StmtTree.tla): design properties of the
+        # build + lookup, then the real update_stmt_tree / lookup_stmts_tree on generated tables and on the real
+        # fc_statements table
+        r, bad = model_check("MC_StmtTree", "MC_StmtTree_" + tier, timeout=1800)
+        c.add_tlc(r, "MC_StmtTree_" + tier)
+        if bad:
+            c.violation("model:StmtTree:" + bad, "statement-table invariant %s violated" % bad, {"tlc_tail": r.out[-3000:]})
+        import stmttree
+        stmttree.run(c, tier)
         configs = [("default", {}, [])]
         configs.append(("custom-prefix", {}, ["--option", "C_line_length=60"]))
         if thorough:
